@@ -79,7 +79,9 @@ class MetaString(type):
             # log.debug(f"to_buffer {offset+8} {len(data)} {string_capacity}")
             buffer.update_from_buffer(offset + 8, data)
         elif is_integer(value):
-            pass
+            # only a capacity is given: the string is empty (the memory may
+            # have been used before)
+            buffer.update_from_buffer(offset + 8, b"\x00" * string_capacity)
         else:
             raise ValueError(f"{value} not a string")
 
